@@ -315,6 +315,55 @@ def relational(rep, tier, rng):
         raise
     except Exception as e:      # noqa
         viol.append(("mixed-raises:mc", f"mixed initial state: {type(e).__name__}: {e}"[:200]))
+    # ---- a returned result is a value: what the solver object does afterwards (other measurement settings, other runs)
+    #      does not change it, and the later run is what a fresh solver with those settings gives
+    for nm, het in (("sse", False), ("sme", False), ("sme", True)):
+        try:
+            H, c, psi0 = problem()
+            o = {"progress_bar": "", "keep_runs_results": True, "store_states": True, "store_measurement": True, "dt": 0.02}
+
+            def mk():
+                if nm == "sse":
+                    return qutip.SSESolver(H, sc_ops=c[:1], heterodyne=het, options=o), psi0
+                return qutip.SMESolver(H, sc_ops=c[:1], heterodyne=het, c_ops=c[1:], options=o), qutip.ket2dm(psi0)
+            nfac = 2 if het else 1
+            fac2 = [2.5, -0.5][:nfac]
+            mop2 = [qutip.sigmax(), qutip.sigmay()][:nfac]
+            with core.time_limit(300):
+                sol, st = mk()
+                r1 = sol.run(st, TL, ntraj=2, e_ops=eops, seeds=[5, 6])
+                sig1 = [traj_sig(r1, j) for j in range(2)]
+                exp1 = [np.array(e) for e in r1.average_expect]
+                sol.dW_factors = fac2
+                sol.m_ops = mop2
+                r2 = sol.run(st, TL, ntraj=2, e_ops=eops, seeds=[5, 6])
+                sig1b = [traj_sig(r1, j) for j in range(2)]
+                fresh, _ = mk()
+                fresh.dW_factors = fac2
+                fresh.m_ops = mop2
+                rf = fresh.run(st, TL, ntraj=2, e_ops=eops, seeds=[5, 6])
+                plain, _ = mk()
+                rp1 = plain.run(st, TL, ntraj=2, e_ops=eops, seeds=[5, 6])
+            tag = nm + ("-heterodyne" if het else "")
+            rep.count("relational-result-is-a-value")
+            for j in range(2):
+                rep.evaluations += 3
+                d = same(sig1[j], sig1b[j])
+                if d:
+                    viol.append((f"result-aliases-solver:{tag}", f"{tag}: a result already returned changed after the solver's measurement settings were changed and it ran again ({d})"))
+                    break
+                d = same(traj_sig(r2, j), traj_sig(rf, j))
+                if d:
+                    viol.append((f"measurement-settings:{tag}", f"{tag}: a run after changing dW_factors / m_ops on a used solver differs from a fresh solver with the same settings ({d})"))
+                    break
+                d = same(sig1[j], traj_sig(rp1, j))
+                if d:
+                    viol.append((f"measurement-settings-leak:{tag}", f"{tag}: two solvers built the same way give different trajectories for the same seed once another solver had its measurement settings changed ({d})"))
+                    break
+        except core.CaseTimeout:
+            raise
+        except Exception as e:      # noqa
+            viol.append((f"result-value-raises:{nm}", f"{nm}: {type(e).__name__}: {e}"[:200]))
     return viol
 
 
